@@ -389,7 +389,12 @@ Laws(k, v) ==
 
 NoExp == [seq |-> [alts |-> {}, dev |-> <<>>], uid |-> [alts |-> {}, dev |-> <<>>]]
 
-Init == /\ IF Exhaustive THEN mbid = 0 /\ mbox \in AllMailboxes
+RECURSIVE SetToSeq(_)
+SetToSeq(S) == IF S = {} THEN <<>>
+               ELSE LET x == CHOOSE x \in S : TRUE IN <<x>> \o SetToSeq(S \ {x})
+MailboxSeq == IF Exhaustive THEN SetToSeq(AllMailboxes) ELSE <<>>    \* numbered, for mbid
+
+Init == /\ IF Exhaustive THEN \E i \in 1..Len(MailboxSeq) : mbid = i /\ mbox = MailboxSeq[i]
                          ELSE \E i \in 1..NumMb : mbid = i /\ mbox = RandMailbox(i)
         /\ key = NoKey /\ rw = FALSE /\ exp = NoExp /\ bad = {} /\ law = {}
 
@@ -407,9 +412,10 @@ Answer(k, e) == /\ key = NoKey
 Ask(k)        == Answer(k, k)
 Rewrite(k, e) == Answer(k, e)
 
-Next == \E k \in KeysFor(mbox) :
-            \/ Ask(k)
-            \/ Rewrites /\ \E e \in Equivs(k) \ {k} : Rewrite(k, e)
+Next == /\ key = NoKey        \* (first: KeysFor is costly and answer states have no successor)
+        /\ \E k \in KeysFor(mbox) :
+              \/ Ask(k)
+              \/ Rewrites /\ \E e \in Equivs(k) \ {k} : Rewrite(k, e)
 
 Spec == Init /\ [][Next]_vars
 
